@@ -195,6 +195,10 @@ fn run_case_inner(case: &Case) -> J {
     let alloc_base = verif::alloc_index();
     // what the interpreter did while it was being created (compiling and running core.yl) is not part of the case
     let boot = verif::take_events();
+    if !case.boot_events {
+        // chunks announced while core.yl ran are not part of the kept trace: announce them again on first use
+        verif::forget_chunks();
+    }
 
     let mut runs = Vec::new();
     for snip in snippets.iter() {
